@@ -1,9 +1,61 @@
 (* Property C19 -- qtools operation counts are the true MAC counts and the
    energy totals add up.  Statements only; proofs in QTools/OpCount.v. *)
-From Coq Require Import ZArith List Bool QArith Qround Qminmax Qabs.
-From QV Require Import QTools.OpCount.
+From Coq Require Import ZArith String List Bool QArith Qround Qminmax Qabs Lia.
+From QV Require Import QTools.OpCount QTools.OpCountSyn Link.OpCountLink.
+From QVGen Require Import OpCountGen.
 Open Scope Z_scope.
 Import ListNotations.
+
+(* ---- get_operation_count as /repo has it now (coq/gen/OpCountGen.v, regenerated on every run) ---- *)
+Theorem C19_translation_ok : translation_ok = true.
+Proof. exact link_opcount_ok. Qed.
+(* the code's count of a (grouped, transposed, batch-norm folded) 2D convolution is the cardinality of its loop nest *)
+Theorem C19_code_conv2d_is_loop_nest : forall cls, In cls conv2d_classes ->
+  forall b h w ci b' ho wo co kh kw k3 k4 pool g,
+  0 <= ho -> 0 <= wo -> 0 <= co -> 0 <= kh -> 0 <= kw -> 0 <= ci -> 0 < g ->
+  gen_opcount cls [b; h; w; ci] [b'; ho; wo; co] [kh; kw; k3; k4] pool g =
+  Z.of_nat (length (conv2d_nest ho wo co kh kw (ci / g))).
+Proof. intros; rewrite link_conv2d by assumption; apply conv2d_count_is_nest; assumption. Qed.
+Print Assumptions C19_code_conv2d_is_loop_nest.
+Theorem C19_code_conv1d_is_loop_nest : forall cls, In cls ["QConv1D"; "Conv1D"]%string ->
+  forall b t ci b' to co k k2 k3 pool g, 0 <= to -> 0 <= co -> 0 <= k -> 0 <= ci ->
+  gen_opcount cls [b; t; ci] [b'; to; co] [k; k2; k3] pool g = Z.of_nat (length (conv1d_nest to co k ci)).
+Proof. intros; rewrite link_conv1d by assumption; apply conv1d_count_is_nest; assumption. Qed.
+Print Assumptions C19_code_conv1d_is_loop_nest.
+Theorem C19_code_depthwise_is_loop_nest : forall cls, In cls ["QDepthwiseConv2D"; "DepthwiseConv2D"]%string ->
+  forall b h w ci dm b' ho wo kh kw k3 k4 pool g,
+  0 <= ho -> 0 <= wo -> 0 <= ci -> 0 <= dm -> 0 <= kh -> 0 <= kw ->
+  gen_opcount cls [b; h; w; ci] [b'; ho; wo; ci * dm] [kh; kw; k3; k4] pool g =
+  Z.of_nat (length (depthwise_nest ho wo ci dm kh kw)).
+Proof. intros; rewrite link_depthwise by assumption; apply depthwise_count_is_nest; assumption. Qed.
+Print Assumptions C19_code_depthwise_is_loop_nest.
+Theorem C19_code_dense_is_loop_nest : forall cls, In cls ["QDense"; "Dense"]%string ->
+  forall ni no w pool g, 0 < ni -> 0 < no ->
+  gen_opcount cls [-1; ni] [-1; no] w pool g = Z.of_nat (length (dense_nest ni no)) /\
+  gen_opcount cls [-1; 1; 1; ni] [-1; 1; 1; no] w pool g = Z.of_nat (length (dense_nest ni no)).
+Proof. intros cls H ni no w pool g Hi Ho; destruct (link_dense cls H ni no w pool g Hi Ho) as [A B];
+  rewrite A, B; split; apply dense_count_is_nest; lia. Qed.
+Print Assumptions C19_code_dense_is_loop_nest.
+Theorem C19_code_pooling_is_loop_nest : forall cls, In cls pool_classes ->
+  forall i b' ho wo c ph pw w g, 0 <= ho -> 0 <= wo -> 0 <= c -> 0 <= ph -> 0 <= pw ->
+  gen_opcount cls i [b'; ho; wo; c] w (Some [ph; pw]) g = Z.of_nat (length (pool_nest ho wo c ph pw)).
+Proof. intros; rewrite link_pool by assumption; apply pool_count_is_nest; assumption. Qed.
+Print Assumptions C19_code_pooling_is_loop_nest.
+Theorem C19_code_global_pooling_is_loop_nest : forall cls,
+  In cls ["GlobalAvgPool2D"; "GlobalAveragePooling2D"; "QGlobalAveragePooling2D"]%string ->
+  forall b h w c b' w0 g, 0 <= c -> 0 <= h -> 0 <= w ->
+  gen_opcount cls [b; h; w; c] [b'; c] w0 None g = Z.of_nat (length (pool_nest 1 1 c h w)).
+Proof. intros; rewrite link_global_pool by assumption; change 1 with (1 * 1) at 1; apply pool_count_is_nest; lia. Qed.
+Print Assumptions C19_code_global_pooling_is_loop_nest.
+(* element-wise layers (merge, reshape, activation, batch normalisation, up-sampling): one operation per element *)
+Theorem C19_code_elementwise : forall cls, In cls elementwise_classes -> forall b dims o w pool g,
+  gen_opcount cls (b :: dims) o w pool g = fold_right Z.mul 1 dims.
+Proof. exact link_elementwise. Qed.
+Print Assumptions C19_code_elementwise.
+Theorem C19_code_upsampling : forall cls, In cls ["UpSampling1D"; "UpSampling2D"; "UpSampling3D"]%string ->
+  forall i b dims w pool g, gen_opcount cls i (b :: dims) w pool g = fold_right Z.mul 1 dims.
+Proof. exact link_upsampling. Qed.
+Print Assumptions C19_code_upsampling.
 
 (* output extents: the admissible window positions are exactly [0, extent) *)
 Theorem C19_valid_extent_exact : forall n k s d o, 0 < s -> 0 <= o ->
